@@ -43,6 +43,8 @@ class SymNd:
         return scalar_out(r, dtype)
 
     def __getitem__(self, idx):
+        if isinstance(idx, tuple) and any(i is None for i in idx) and not any(isinstance(i, (SymNd, SymScalar)) for i in idx):
+            return SymNd(self.a[idx], self.dtype_t)  # x[:, None] and the like: pure reshaping
         # fancy index with a symbolic integer index array:  x[ix, range(k)]
         if isinstance(idx, tuple) and len(idx) == 2 and isinstance(idx[0], SymNd):
             ix, cols = idx
@@ -52,6 +54,9 @@ class SymNd:
                 out[n_] = select_by_index(self.a[:, c], ix.a[n_])
             return SymNd(out, self.dtype_t)
         if isinstance(idx, SymScalar):
+            if T.num_value(idx.term) is None:  # x[k] for a symbolic integer k: If-chain over axis 0
+                r = select_by_index(self.a, idx.term)
+                return self._wrap(r)
             idx = int(idx)
         r = self.a[idx]
         return self._wrap(r if isinstance(r, np.ndarray) else r)
@@ -61,7 +66,7 @@ class SymNd:
 
     def argmax(self, axis=None):
         if self.dtype_t != torch.bool:
-            raise Unsupported("argmax of a non-boolean symbolic array")
+            return self._float_argmax(axis)
         if axis != 0 or self.a.ndim != 2:
             raise Unsupported("argmax only along axis 0 of a 2-D boolean array")
         n, k = self.a.shape
@@ -73,6 +78,45 @@ class SymNd:
                 r = T.mk_ite(self.a[j, c], z3.IntVal(j), r)
             out[c] = r
         return SymNd(out, torch.int64)
+
+    def _float_argmax(self, axis):
+        """numpy semantics for floats: index of the first maximum, a NaN counting as the maximum (first NaN wins)"""
+        if self.a.ndim == 1 and axis in (None, 0):
+            cols = [list(self.a)]
+        elif self.a.ndim == 2 and axis == 0:
+            cols = [list(self.a[:, c]) for c in range(self.a.shape[1])]
+        else:
+            raise Unsupported("float argmax only of a 1-D array or along axis 0 of a 2-D array")
+        out = np.empty((len(cols),), dtype=object)
+        for c, col in enumerate(cols):
+            r, best = z3.IntVal(0), col[0]
+            for j in range(1, len(col)):
+                better = z3.And(z3.Not(z3.fpIsNaN(best)), z3.Or(z3.fpIsNaN(col[j]), z3.fpGT(col[j], best)))
+                r, best = z3.If(better, z3.IntVal(j), r), z3.If(better, col[j], best)
+            out[c] = r
+        if self.a.ndim == 1:
+            return scalar_out(out[0], torch.int64)
+        return SymNd(out, torch.int64)
+
+    def _times_bool(self, other):
+        """float array * boolean array (numpy casts True/False to 1.0/0.0): exact IEEE product without a multiplier"""
+        if not (isinstance(other, SymNd) and {self.dtype_t, other.dtype_t} == {F64, torch.bool}):
+            raise Unsupported("only float64 * bool products of symbolic arrays")
+        x, b = (self, other) if self.dtype_t == F64 else (other, self)
+        xa, ba = np.broadcast_arrays(x.a, b.a)
+        srt = T.sort_of_dtype(F64)
+
+        def one(v, t):
+            zero = z3.If(z3.Or(z3.fpIsNaN(v), z3.fpIsInf(v)), z3.fpNaN(srt), z3.If(z3.fpIsNegative(v), z3.fpMinusZero(srt), z3.fpPlusZero(srt)))
+            return z3.If(t, v, zero)
+
+        out = np.empty(xa.shape, dtype=object)
+        for idx in np.ndindex(*xa.shape):
+            out[idx] = one(xa[idx], ba[idx])
+        return SymNd(out, F64)
+
+    __mul__ = _times_bool
+    __rmul__ = _times_bool
 
     def tolist(self):
         def rec(x):
@@ -92,6 +136,8 @@ class SymNd:
             return SymNd(vmap(_isnan, self.a), torch.bool)
         if ufunc is np.invert and method == "__call__":
             return self.__invert__()
+        if ufunc is np.multiply and method == "__call__" and len(inputs) == 2 and all(isinstance(i, SymNd) for i in inputs):
+            return inputs[0]._times_bool(inputs[1])
         raise Unsupported(f"numpy ufunc {ufunc.__name__} on a symbolic array")
 
     def __array_function__(self, func, types, args, kwargs):
@@ -127,6 +173,42 @@ def _nanreduce(x, axis, kind):
                 cnt = z3.If(z3.fpIsNaN(v), cnt, z3.fpAdd(T.RNE, cnt, z3.FPVal(1.0, srt)))
             out[c] = z3.fpDiv(T.RNE, s, cnt)  # 0/0 = NaN when every entry is NaN
     return SymNd(out, x.dtype_t)
+
+
+class NumpyProxy:
+    """Stand-in for the `np` global of a module under analysis: everything is numpy's own, except that converting an already-float64 symbolic
+    array to a float array is the identity (np.asarray / np.array / np.asanyarray never go through the dispatch protocols)."""
+
+    def __init__(self, real=np):
+        self._real = real
+
+    def __getattr__(self, name):
+        return getattr(self._real, name)
+
+    def _conv(self, name):
+        real = getattr(self._real, name)
+
+        def f(x, *args, **kwargs):
+            dtype = kwargs.get("dtype", args[0] if args else None)
+            if isinstance(x, SymNd):
+                if dtype in (None, float, np.float64) and x.dtype_t == F64:
+                    return x
+                raise Unsupported(f"np.{name} of a symbolic array to dtype {dtype}")
+            return real(x, *args, **kwargs)
+
+        return f
+
+    @property
+    def asarray(self):
+        return self._conv("asarray")
+
+    @property
+    def array(self):
+        return self._conv("array")
+
+    @property
+    def asanyarray(self):
+        return self._conv("asanyarray")
 
 
 def sym_nd(name, shape, dtype=F64):
